@@ -763,7 +763,7 @@ func (run *vfC06Run) drive(rs *vfC06RS) {
 			if run.wait(u, rs.dialed) == "ok" {
 				run.write(rs, vfC06Down, rs.harness, 0, int64(sp.Down), rDown, -1)
 			}
-		}()
+		})
 		wg.Wait()
 		setShape(vfC06Up, "i", int64(sp.Up), run.wait(u, rs.arrived(vfC06Up, int64(sp.Up))))
 		setShape(vfC06Down, "i", int64(sp.Down), run.wait(u, rs.arrived(vfC06Down, int64(sp.Down))))
@@ -802,7 +802,7 @@ func (run *vfC06Run) drive(rs *vfC06RS) {
 			if run.wait(u, rs.dialed) == "ok" {
 				run.write(rs, vfC06Down, rs.harness, 0, int64(sp.Down), rDown, -1)
 			}
-		}()
+		})
 		run.write(rs, vfC06Up, conn, 0, int64(sp.Up), rUp, int64(sp.CutAt))
 		run.closeClient(rs)
 		wg.Wait()
@@ -819,7 +819,7 @@ func (run *vfC06Run) drive(rs *vfC06RS) {
 			if run.wait(u, rs.dialed) == "ok" {
 				run.write(rs, vfC06Down, rs.harness, 0, int64(sp.Down), rDown, -1)
 			}
-		}()
+		})
 		time.Sleep(time.Duration(sp.CloseMs) * time.Millisecond)
 		tgtFirst := r.Intn(2) == 0
 		if run.wait(u, rs.dialed) == "ok" {
@@ -839,7 +839,7 @@ func (run *vfC06Run) drive(rs *vfC06RS) {
 			if run.wait(u, rs.dialed) == "ok" {
 				run.write(rs, vfC06Down, rs.harness, 0, int64(sp.Down), rDown, -1)
 			}
-		}()
+		})
 		run.wait(u, u.pending) // the logger is now sitting on the chunk it is going to veto
 		run.closeClient(rs)
 		wg.Wait()
@@ -856,7 +856,7 @@ func (run *vfC06Run) drive(rs *vfC06RS) {
 			if run.wait(u, rs.dialed) == "ok" {
 				run.write(rs, vfC06Down, rs.harness, 0, int64(sp.Down), rDown, -1)
 			}
-		}()
+		})
 		wg.Wait()
 	}
 }
@@ -1015,7 +1015,7 @@ func vfC06RunCase(t *testing.T, k *vfKit, c vfC06Case) {
 					wg.Go(func() { run.drive(rs) })
 				}
 				wg.Wait()
-			}()
+			})
 		}
 		all.Wait()
 		// tear every relay down from the client side, then let the server finish (virtual settle)
